@@ -27,6 +27,9 @@ def check(ctx):
         for meth in ("cycle_duration", "delay", "duration", "repeat"):
             for b in D.body_of(s, meth, D.TL, s.target + "Timeline"):
                 c03.check_accessor(ctx, s.F, b, "G7")
+    # "accessors return what the builder was given": builder setters -> time scale fields -> getters (C03/R5)
+    from rules import timescale_table as TT
+    c03.rule_metadata(ctx, TT.build(ctx), "G10")
     ctx.extra["programs"] = n
     ctx.extra["disagreements_checked"] = n
     ctx.extra["tv_samples"] = [{"shape": s.label, "animated": s.animated, "target": s.target} for s in shapes[:8]]
